@@ -424,12 +424,16 @@ def _zero_guard(b, divisor, block):
     dl = divisor["place"]["l"]
     # locals holding the same value as the divisor (copies)
     same = {dl}
-    for bb, idx, place, rv, _ in b.assignments():
-        if rv["k"] == "use" and rv["op"].get("k") in ("copy", "move") and not place["p"]:
-            if rv["op"]["place"]["l"] in same:
-                same.add(place["l"])
-            if place["l"] in same:
-                same.add(rv["op"]["place"]["l"])
+    changed = True
+    while changed:
+        changed = False
+        for bb, idx, place, rv, _ in b.assignments():
+            if rv["k"] == "use" and rv["op"].get("k") in ("copy", "move") and not place["p"] \
+                    and not rv["op"]["place"]["p"]:
+                a, c = rv["op"]["place"]["l"], place["l"]
+                if (a in same) != (c in same):
+                    same.update((a, c))
+                    changed = True
     for bb, idx, place, rv, _ in b.assignments():
         if rv["k"] == "binop" and rv["op"] in ("Eq", "Ne"):
             ops = [rv["a"], rv["b"]]
